@@ -877,8 +877,10 @@ def descents(ck, prefix, mask, rule='D1'):
                 seen.add(0)
             if not (isinstance(r, Ptr) and r == Ptr('M', 0)):
                 probs.append('duplicate key returns %s, not the resident node' % (r,))
-            if same_store(s, st0):
-                probs.append('duplicate insertion writes %s' % same_store(s, st0)[:2])
+            # the tree must be left alone; what happens to the rejected node (it is not an element) is not the property's business
+            tw = [k_ for k_ in same_store(s, st0) if k_[0] != 'NEW']
+            if tw:
+                probs.append('duplicate insertion writes %s' % tw[:2])
             if [c for c in s.calls if c[0] != 'cmp']:
                 probs.append('duplicate insertion calls %s' % [c[0] for c in s.calls if c[0] != 'cmp'])
             (rep.bad if probs else rep.ok)(rule, '%s step at %s link, cmp=0' % (ins.name, holder), '; '.join(probs) or 'returns the resident node, no store, no rebalancing',
